@@ -21,6 +21,7 @@ pub fn run_case(c: &Sx) -> Sx {
         "relayout" => relayout(v),
         "parsetoks" => parsetoks(v),
         "parsesrc" => parsesrc(v),
+        "timeparse" => timeparse(v),
         "asciiclasses" => ascii_classes(),
         h => panic!("harness: unknown op {h}"),
     }
@@ -453,4 +454,30 @@ fn parsesrc(v: &[Sx]) -> Sx {
     let _ = hooks_take();
     let r = parse(None, &src, &toks[..], &[]);
     l(vec![a("parsed"), l(tl), parse_result(r, true)])
+}
+
+// (timeparse x:<hex> reps): hook counters and the best-of-reps CPU time (microseconds) of tokenize+parse
+fn timeparse(v: &[Sx]) -> Sx {
+    let src = String::from_utf8(hex_decode(v[1].atom())).expect("utf8");
+    let reps = v[2].usize();
+    let mut best = u128::MAX;
+    let mut ntok = 0;
+    let mut verdict = "lexerr";
+    let mut hk = a("none");
+    for _ in 0..reps {
+        let _ = hooks_take();
+        let t0 = std::time::Instant::now();
+        let toks = tokenize(None, &src);
+        if let Ok(ts) = &toks {
+            ntok = ts.len();
+            let r = parse(None, &src, &ts[..], &[]);
+            verdict = if r.is_ok() { "ok" } else { "err" };
+        }
+        let dt = t0.elapsed().as_micros();
+        hk = hooks_take();
+        if dt < best {
+            best = dt;
+        }
+    }
+    l(vec![a("timed"), a(verdict), n(ntok), n(best as usize), hk])
 }
